@@ -28,6 +28,7 @@ func init() {
 		e.RPureDecorate()
 		e.RPureRestore()
 		e.RSharedState()
+		e.RPerFileState()
 		e.RFragOrder()
 	})
 	register("C17", Meta{
